@@ -115,7 +115,10 @@ def run(chk, tier, seed):
             ntr = 40
             n = ntr * spt
             salt = 100 + k
-            img = mkdisc.surface_dfs(n, salt, title=b"DAMAGED", entries=[mkdisc.entry("ALL", length=(n - 2) * 256 if n - 2 < 1024 else 0x3FF00 // 256 * 256, start=2)])
+            # the catalogue claims a little less than the disc holds, so that a geometry inferred too small (a sector lost on
+            # every track / a miscounted track) can still hold the file system; $.ALL covers every data sector it claims
+            total = n - 5 * spt
+            img = mkdisc.surface_dfs(n, salt, title=b"DAMAGED", total=total, entries=[mkdisc.entry("ALL", length=(total - 2) * 256, start=2)])
             # build tracks, damaging a few fields on some tracks (never track 0: the catalogue must stay readable)
             sides = [[]]
             damaged = {}
@@ -166,6 +169,20 @@ def run(chk, tier, seed):
                     # an image with damaged tracks may be rejected as a whole (unequal sector counts): then every read fails cleanly
                     evs.append(dict(e="read", fmt=fmt, enc=enc, img=k, t=t, s=r, result=result, damaged=1 if damaged else 0,
                                     track_damaged=dmg, mounted=1 if mounted else 0))
+            # file level: every 256-byte chunk of $.ALL must be the sector the catalogue designates (LBA 2 + i), or the read fails
+            # (not judged when every track lost the same last record: nothing on the disc then says how many sectors a track
+            # had, the statement's image-level claim is about reads of (track, sector), which the loop above covers)
+            o = common.run([dfs, "--file", path, "type", "--binary", "ALL"], timeout=120)
+            if k // 3 % 3 == 2:
+                pass
+            elif o.rc == 0:
+                wrong = sum(1 for i in range(0, len(o.out), 256) if o.out[i:i + 256] != bytes(img[(2 + i // 256) * 256:(3 + i // 256) * 256]))
+                result = 1 if wrong == 0 and len(o.out) == (total - 2) * 256 else 2
+            else:
+                result = 0 if (o.ok_alphabet() and o.err.strip()) else 2
+            if k // 3 % 3 != 2:
+              evs.append(dict(e="read", fmt=fmt, enc=enc, img=k, t=-1, s=-1, result=result, damaged=1 if damaged else 0, track_damaged=1, mounted=1 if mounted else 0,
+                              file="ALL"))
             os.unlink(path)
             return evs
         for evs in common.pmap(doimg, imgjobs):
@@ -192,8 +209,8 @@ def run(chk, tier, seed):
                 chk.violation("raw:%s" % e["enc"], "%s decoder on adversarial stream %d (kind %d): yields %r clean=%s" %
                               (e["enc"], e["i"], e["kind"], e["yields"], e["clean"]), dict(event=e))
             else:
-                chk.violation("image:%s:%s" % (e["fmt"], "wrong-data" if e["result"] == 2 else "lost"),
-                              "%s image %d (%s): dump-sector 0 %d %d -> %s (image has damage: %s, mounted: %s)" %
+                chk.violation("image:%s:%s%s" % (e["fmt"], "wrong-data" if e["result"] == 2 else "lost", ":file" if e.get("file") else ""),
+                              "%s image %d (%s): dump-sector 0 %d %d (t = -1: type --binary of a file covering the disc) -> %s (image has damage: %s, mounted: %s)" %
                               (e["fmt"], e["img"], e["enc"], e["t"], e["s"], {0: "failed", 1: "right sector", 2: "WRONG DATA or unclean"}[e["result"]],
                                e["damaged"], e["mounted"]), dict(event=e))
         chk.exhaustive = not quick
